@@ -38,6 +38,8 @@ func runC05(c *core.Ctx) {
 	h.openStorageLoads("C05.7 restart-loads", "term")
 	h.settersSkipJustified("C05.8 setter-skip-justified")
 	h.dirListingLiteral("C05.9 dir-listing")
+	c.Clause("C05.10 every answer to a request is the answer of that request's handler (the dispatcher has no fast path)")
+	h.dispatcherHandsOver("C05.10 dispatcher")
 }
 
 // setterPersistThenPublish: in setTerm / setVotedFor every store to
@@ -264,4 +266,73 @@ func (h H) selfVoteBeforeCampaign(rule string) {
 			h.C.Check(rule, "(*candidate).startElection self-reply", core.Dominates(sv, s), h.pos(s), "self vote counted before it is persisted")
 		}
 	})
+}
+
+// dispatcherHandsOver (C05.10 and attachments): Raft.onRequest decides
+// nothing itself. Whatever it returns for a request is what the handler of
+// that request type returned — every rule about votes, appends and snapshot
+// installation is stated on the handlers, and an answer produced by the
+// dispatcher (a "fast path") would bypass all of them. The only other result
+// is the recovered-panic conversion in its deferred closure.
+func (h H) dispatcherHandsOver(rule string) {
+	fn := h.fn("raft:(*Raft).onRequest")
+	handlers := map[string]string{
+		"(*Raft).onVoteRequest":          "*voteReq",
+		"(*Raft).onAppendEntriesRequest": "*appendReq",
+		"(*Raft).onInstallSnapRequest":   "*installSnapReq",
+		"(*Raft).onTimeoutNowRequest":    "*timeoutNowReq",
+	}
+	fromHandler := func(v ssa.Value) (string, bool) {
+		ex, ok := v.(*ssa.Extract)
+		if !ok {
+			return "", false
+		}
+		c, ok := ex.Tuple.(*ssa.Call)
+		if !ok {
+			return "", false
+		}
+		sc := c.Common().StaticCallee()
+		if sc == nil {
+			return "", false
+		}
+		_, ok = handlers[h.name(sc)]
+		return h.name(sc), ok
+	}
+	fi := h.P.Info(fn)
+	n := 0
+	seen := map[string]bool{}
+	check := func(v ssa.Value, in ssa.Instruction) {
+		n++
+		name, ok := fromHandler(v)
+		if ok {
+			seen[name] = true
+		}
+		h.C.Check(rule+" answer-is-the-handler's", fmt.Sprintf("(*Raft).onRequest result source#%d", n), ok, h.pos(in),
+			"the request dispatcher answers a request itself ("+fi.Sym(v).String()+") instead of handing over the handler's result: the persistence, term and log rules that hold for the handler's answers do not cover this one")
+	}
+	core.Instrs(fn, func(in ssa.Instruction) {
+		switch x := in.(type) {
+		case *ssa.Store:
+			if al, ok := x.Addr.(*ssa.Alloc); ok && al.Comment == "result" {
+				check(x.Val, in)
+			}
+		case *ssa.Return:
+			if len(x.Results) == 2 {
+				if u, ok := x.Results[0].(*ssa.UnOp); ok {
+					if al, ok := u.X.(*ssa.Alloc); ok && al.Comment == "result" {
+						return
+					}
+				}
+				check(x.Results[0], in)
+			}
+		}
+	})
+	h.C.Floor(rule+" (result sources of onRequest)", n, 4)
+	for name := range handlers {
+		h.C.Check(rule+" every-type-dispatched", "(*Raft).onRequest → "+name, seen[name], h.fpos(fn), "no result of onRequest comes from "+name)
+	}
+	// a handler is reached only for its own request type
+	for k, site := range h.P.Callers(h.fn("raft:(*Raft).onVoteRequest")) {
+		h.C.Check(rule+" who-may-call", fmt.Sprintf("%s → (*Raft).onVoteRequest#%d", h.name(site.Fn), k+1), site.Fn == fn, h.pos(site.Instr), "the vote handler is called from outside the request dispatcher")
+	}
 }
